@@ -634,6 +634,11 @@ func (o *BabbageTransactionOutput) UnmarshalCBOR(cborData []byte) error {
 }
 
 func (o *BabbageTransactionOutput) MarshalCBOR() ([]byte, error) {
+	// Return the original CBOR if available so that re-encoding a decoded
+	// object reproduces the exact bytes it was decoded from
+	if o.Cbor() != nil {
+		return o.Cbor(), nil
+	}
 	if o.legacyOutput {
 		tmpOutput := alonzo.AlonzoTransactionOutput{
 			OutputAddress: o.OutputAddress,
